@@ -4,6 +4,8 @@ import (
 	"context"
 	"errors"
 	"fmt"
+	"sort"
+	"strings"
 	"sync"
 
 	formula "github.com/aundis/formula"
@@ -167,7 +169,15 @@ func (evalFam) Check(vars map[string]any) Result {
 	}
 	run := formula.NewRunner()
 	run.SetThis(dm)
+	snap0 := frameSnapshot(dm)
 	obs := EvalObserve(run, h, src.Expression)
+	if snap1 := frameSnapshot(dm); snap1 != snap0 {
+		// C07 frame condition: no non-"$" entry, and nothing reachable from one, may change
+		r.Observed = tlaval.Format(obs) + " :: caller data changed: before " + snap0 + " after " + snap1
+		r.Site = "frame:" + treeHead(vars["tree"])
+		r.Nontrivial = true
+		return r
+	}
 	r.Observed = tlaval.Format(obs)
 	ot, _ := obs.([]any)
 	r.Nontrivial = len(et) > 0 && et[0] != "unspec"
@@ -236,4 +246,20 @@ func CanonTree(t any) any {
 		out[i] = CanonTree(e)
 	}
 	return out
+}
+
+// frameSnapshot is the deep snapshot of the caller's data map without its "$" entries.
+func frameSnapshot(dm map[string]interface{}) string {
+	keys := make([]string, 0, len(dm))
+	for k := range dm {
+		if !strings.HasPrefix(k, "$") {
+			keys = append(keys, k)
+		}
+	}
+	sort.Strings(keys)
+	var sb strings.Builder
+	for _, k := range keys {
+		sb.WriteString(k + "=" + proj.Snapshot(dm[k]) + ";")
+	}
+	return sb.String()
 }
